@@ -80,6 +80,14 @@ var props = map[string]PropMeta{
 		Stub:   []string{"Avahi daemon + D-Bus (fake implementing go-avahi's ServerInterface)", "report callback (recorder)"},
 		QuickS: 25, ThoroughS: 420, QuickWorkers: 6,
 	},
+	"C20": {
+		Level: "exploration",
+		Rule: "the hub / mDNS / Avahi workloads of C05, C10, C11, C17, C18, C19 (2-3 real hubs with application tasks issuing API calls while connections are accepted, dialled, handshaking, exchanging data and closing, mDNS reports arriving, timers firing) built with -race and run in parallel-round mode: with probability 0.35 a scheduler step releases a random subset of the parked tasks at once and each released task passes through up to 40 optional yield points before it parks again, so that their steps are concurrent for the Go race detector; oracle: a detector report whose two accesses both have a ship-go function as innermost non-runtime frame; signature = the unordered pair of those functions; " +
+			"non-trivial = all runs; distinct = distinct workload signatures",
+		Real: hubReal, Stub: hubStub,
+		Assumptions: []string{"the race detector is happens-before based with bounded shadow memory: a clean batch is evidence for the rounds sampled only", "parallel-round mode gives up exact replay; a replay re-runs the seeds and looks for the same pair of racing functions"},
+		QuickS:      40, ThoroughS: 600, QuickWorkers: 8, Race: true,
+	},
 	"C05": {
 		Level: "exploration",
 		Rule: "one run = two real hubs (optionally a third bystander) with generated certificates on the simulated network and mDNS medium: registration before/after Start, start skew 0..30 s, network latency 0..900 ms (optionally asymmetric), mDNS propagation 0..6 s, the dial back-off drawn per attempt (minimum / maximum / any), then 0-4 disturbances from {DisconnectSKI by either side, unsafe close, reset of all connections, half-open link, mDNS outage} at drawn times, then 300 quiet simulated seconds x seeded interleaving of all hub, ship, ws, http and harness tasks; oracle: exactly one transport connection open at both ends, registered on both sides, completed on both sides, a fresh payload crosses in each direction; " +
